@@ -120,28 +120,28 @@ ENC_RULE = ("generic reflection harness: 'api' = random VALID API histories (eve
             "with every command; packet-out; port-mod; set-config; multipart requests; Nicira/ONF vendor messages; bundle-add wrapping any message), "
             "'enc'/'prog' = literal values and constructor calls with edge arguments (correspondence only). Non-trivial = the encoder produced bytes.")
 PROPS["C01"] = {
-    "families": ["OF"], "ops": "api,enc,prog", "gen_deps": [],
+    "families": ["OF"], "ops": "api,apix,enc,prog", "gen_deps": [],
     "rule": ENC_RULE, "trivial_outputs": ["panic", "err"],
     "level_text": "Theorems (model): constructors stamp version 4 / their type code; for flow-mods of every command and content the first four bytes are (version, type, reported size) — the header length equals the size the message reports; C06 relates reported size to bytes. Oracle on implementation bytes for every generated API-built top-level message: version 4, type code of the kind / constructor, header length = len(bytes) = reported size before and after encoding. Theorems for the other top-level kinds are pending (their framing is decided by the oracle + correspondence only).",
     "level_note": OF_NOTE,
     "assumptions": COMMON_ASSUMPTIONS,
 }
 PROPS["C02"] = {
-    "families": ["OF"], "ops": "api,enc,prog", "gen_deps": [],
+    "families": ["OF"], "ops": "api,apix,enc,prog", "gen_deps": [],
     "rule": ENC_RULE, "trivial_outputs": ["panic", "err"],
     "level_text": "Theorems: every message / action / Nicira subtype / instruction / OXM class / vendor code regenerated from the Go constants equals the specification's (decide on regenerated constants); every size the library rounds is a multiple of 8 and the least one; builder invariant for ANY sequence of Match.AddField (cached length = 4 + sum of field sizes, induction over the history). Oracle: an independent receiver written only from the wire grammar (Spec.walk: declared lengths, alignment, zero padding, legal codes and widths, ends exactly at the end) walks the implementation's bytes of every API-built message / element and must visit exactly the elements the value holds, in order.",
     "level_note": OF_NOTE,
     "assumptions": COMMON_ASSUMPTIONS,
 }
 PROPS["C03"] = {
-    "families": ["OF"], "ops": "api,enc,prog", "gen_deps": [],
+    "families": ["OF"], "ops": "api,apix,enc,prog", "gen_deps": [],
     "rule": ENC_RULE, "trivial_outputs": ["panic", "err"],
     "level_text": "Theorems (model): OpenFlow header fields at offsets 0/1/2/4; every fixed field of a flow-mod at the offset OpenFlow 1.3 assigns to it (cookie 8 … out_port 36, out_group 40, flags 44), for every content. Oracle: specification layout tables (Spec.layouts: offset, width per field of every message, action, instruction, bucket, vendor payload; OXM payload = value||mask in the field's width; NAT optional parts by presence bits in OVS order; learn-spec header packing; header words of register fields) applied to the implementation's bytes of every API-built value, element by element along the grammar walk.",
     "level_note": OF_NOTE + " Known finding D44 (port-stats / queue-stats request port_no is 16 bits wide in the struct).",
     "assumptions": COMMON_ASSUMPTIONS,
 }
 PROPS["C06"] = {
-    "families": ["OF"], "ops": "api,enc,prog,embed", "gen_deps": [],
+    "families": ["OF"], "ops": "api,apix,enc,prog,embed", "gen_deps": [],
     "rule": ENC_RULE, "trivial_outputs": ["panic", "err"],
     "level_text": "Theorems: fill_exact / fill_length — the make(Len())+copy idiom returns exactly Len() bytes and, when the pieces fit, their concatenation plus zero padding (the general lemma every container theorem instantiates); all 30 match-payload kinds: size = encoding length and neither call modifies the value; match field and match: encoding length = reported size for any content, match size multiple of 8. Oracle: reported size before and after encoding = bytes produced, on every API-built value of every kind. Container theorems for actions / instructions / messages are pending (decided by oracle + correspondence).",
     "level_note": OF_NOTE,
